@@ -307,6 +307,28 @@ class ExcInfo:
                                           '<-'.join(reversed(self.chain)))
 
 
+# analyse the program as python -O runs it (assert statements removed)
+ASSERTS_REMOVED = False
+
+_OWNED_ROOTS = ('param', 'field', 'attr', 'elem', 'index', 'loopvar',
+                'loopattr', 'tableget', 'global', 'obj', 'havoc', 'unknown',
+                'method', 'dyncall', 'call', 'kwargs', 'instdict')
+
+
+def _may_be_callers(v):
+    """Can the value be an object the caller (or shared state) also holds?
+    The result of a constructor or of a call is a new object; what is read
+    from a parameter, an attribute, a container or a global is not.  An
+    accumulation `x += y` keeps the object x had."""
+    while isinstance(v, Sym) and v.op in ('typed', 'concat') and v.args:
+        v = v.args[0]
+    if isinstance(v, Sym) and v.op == 'cond':
+        return _may_be_callers(v.args[1]) or _may_be_callers(v.args[2])
+    if isinstance(v, Sym):
+        return v.op in _OWNED_ROOTS
+    return not T.is_const(v)
+
+
 class Outcome:
     __slots__ = ('kind', 'state', 'value', 'exc')
 
@@ -893,6 +915,7 @@ class Interp:
         (normal fall-through converted to return None)."""
         if len(self.stack) > self.policy.max_depth:
             raise AnalysisError('inlining depth exceeded at ' + fi.short)
+        args, kwargs = self._norm_call(fi, args, kwargs)
         env = self.bind_args(fi, args, kwargs, state, node, closure_env)
         saved = (self.cur_module, self.cur_func)
         self.stack.append((fi, self.site(node) if self.cur_module else None))
@@ -942,10 +965,25 @@ class Interp:
                 res.append(o)
         return res
 
+    @staticmethod
+    def _norm_call(fi, args, kwargs):
+        """Keyword arguments that name the next positional parameters are
+        the same call as passing them positionally."""
+        if not kwargs or not hasattr(fi.node, 'args') or \
+                not hasattr(fi.node.args, 'args'):
+            return args, kwargs
+        a = fi.node.args
+        names = [p.arg for p in a.posonlyargs + a.args]
+        args2, kw = list(args), dict(kwargs)
+        while len(args2) < len(names) and names[len(args2)] in kw:
+            args2.append(kw.pop(names[len(args2)]))
+        return args2, kw
+
     def call_function(self, fi, args, kwargs, state, node, closure_env=None):
         """Call from inside an expression: inline (or summarise), push raise
         outcomes to pending, join the returns.  Returns the value; ``state``
         is updated in place."""
+        args, kwargs = self._norm_call(fi, args, kwargs)
         summ = self.policy.summarise(self, fi, args, kwargs, state)
         if summ is not None:
             value, raises = summ
@@ -1271,7 +1309,7 @@ class Interp:
                         ast.BitXor, ast.Sub)):
             t_ = state.kn.type_of(cur)
             if (t_ is None or t_ & {'bytearray', 'list', 'dict', 'set'}) \
-                    and not T.is_const(cur):
+                    and not T.is_const(cur) and _may_be_callers(cur):
                 # `x op= y` on a value that may be a mutable object works
                 # in place: the caller's object changes
                 self.effect('inplace-op', cur, type(st.op).__name__, st)
@@ -1292,6 +1330,20 @@ class Interp:
                 self.models.del_item(self, base, k, state, st)
             elif isinstance(t, ast.Attribute):
                 base = self.eval(t.value, state, frame)
+                pr = None
+                if isinstance(base, Ref):
+                    ob = self.obj(state, base)
+                    if isinstance(ob, InstObj):
+                        pr = self.prog.find_property(ob.cls, t.attr)
+                if pr is not None:
+                    if pr[2] is None:
+                        self.raise_pending(
+                            state, Ext('builtins.AttributeError'), st,
+                            'property %s has no deleter' % t.attr,
+                            cond=True)
+                        raise _NoReturn()
+                    self.call_function(pr[2], [base], {}, state, st)
+                    continue
                 self.set_attr(base, t.attr, ABSENT, state, st)
             else:
                 raise Unsupported('del target at ' + self.site(st))
@@ -1331,6 +1383,7 @@ class Interp:
             return [Outcome('return', state, value=v)]
         if recv is not None:
             args = [recv] + args
+        args, kwargs = self._norm_call(fi, args, kwargs)
         if self.policy.summarise(self, fi, args, kwargs, state) is not None \
                 or any(f is fi for f, _ in self.stack):
             v = self.call_function(fi, args, kwargs, state, call,
@@ -1395,6 +1448,9 @@ class Interp:
                           self.site(node))
 
     def st_Assert(self, st, state, frame):
+        if ASSERTS_REMOVED:
+            # python -O: the statement is not compiled at all
+            return [Outcome('normal', state)]
         c = T.truthy(self.eval(st.test, state, frame))
         c = T.simplify(c, state.kn)
         d = state.kn.decide(c)
@@ -1814,6 +1870,23 @@ class Interp:
                     na[a] = v_
                 hstate.store[i] = InstObj(o.cls, na, o.shared, o.origin,
                                           o.open)
+        # variables that move in lock step: each changes by a constant on
+        # every path back to the loop head, so after any number of
+        # iterations  d_j * (v_i - start_i) == d_i * (v_j - start_j)
+        strided = [(k, d) for k, d in sorted(pinfo.get('strides',
+                                                       {}).items())
+                   if pre.get(k, ABSENT) is not ABSENT and
+                   T.typeof(pre[k]) is not None and
+                   T.typeof(pre[k]) <= {'int'}]
+        lead = next(((k, d) for k, d in strided if d != 0), None)
+        for k, d in strided:
+            if d == 0:
+                hstate.kn.assume(T.compare('eq', hstate.env[k], pre[k]))
+            elif lead is not None and k != lead[0]:
+                k0, d0 = lead
+                hstate.kn.assume(T.compare(
+                    'eq', T.mul(d, T.sub(hstate.env[k0], pre[k0])),
+                    T.mul(d0, T.sub(hstate.env[k], pre[k]))))
         entry = hstate.fork()
         self.loop_stack.append((loop_id, self.cur_func, len(self.stack)))
         try:
@@ -1907,6 +1980,15 @@ class Interp:
                     if lo is None or lo < 0:
                         okk = False
                 info['nonneg_incs'][k] = okk
+                # the same constant step on every path back to the head
+                steps = set()
+                for o in conts:
+                    v1 = o.state.env.get(k)
+                    dlt = T.sub(v1, v0) if v1 is not None else None
+                    steps.add(dlt if isinstance(dlt, int) and
+                              not isinstance(dlt, bool) else None)
+                if len(steps) == 1 and None not in steps:
+                    info.setdefault('strides', {})[k] = steps.pop()
         # the same for integer attributes of objects (probe pass: the
         # attribute still holds its pre-loop value at the loop head)
         attr_nonneg = {}
@@ -2312,6 +2394,18 @@ class Interp:
                     self.call_function(d[1], [d[0], base, v], {}, state,
                                        node)
                     return
+                pr = self.prog.find_property(o.cls, name)
+                if pr is not None:
+                    # a property is a data descriptor: its setter decides
+                    # what the store does; without one the store fails
+                    if pr[1] is None:
+                        self.raise_pending(
+                            state, Ext('builtins.AttributeError'), node,
+                            'property %s.%s has no setter' %
+                            (o.cls.short, name), cond=True)
+                        raise _NoReturn()
+                    self.call_function(pr[1], [base, v], {}, state, node)
+                    return
                 # a __setattr__ defined in the package intercepts the store
                 sa = self.prog.find_method(o.cls, '__setattr__')
                 if sa is not None and not any(f is sa for f, _ in
@@ -2589,6 +2683,20 @@ class Interp:
         return self.get_attr(base, name, state, node)
 
     def ex_Attribute(self, node, state, frame):
+        if node.attr in ('value', 'name', '_value_', '_name_') and \
+                isinstance(node.value, ast.Attribute) and \
+                isinstance(node.value.value, (ast.Name, ast.Attribute)):
+            # <Enumeration>.<MEMBER>.value / .name
+            try:
+                owner = self.eval(node.value.value, state.fork(), frame)
+            except (AnalysisError, Unsupported, _NoReturn):
+                owner = None
+            if isinstance(owner, ClassInfo) and \
+                    self.prog.enum_kind(owner) and \
+                    self.prog.enum_member(owner, node.value.attr):
+                if node.attr in ('name', '_name_'):
+                    return node.value.attr
+                return self.class_attr(owner, node.value.attr)
         base = self.eval(node.value, state, frame)
         return self.get_attr(base, node.attr, state, node)
 
@@ -2623,7 +2731,15 @@ class Interp:
                 raise _NoReturn()
             if isinstance(v, FuncInfo) and v.kind == 'classmethod':
                 return Bound(v, base)
+            if self.prog.enum_kind(base) == 'plain' and \
+                    self.prog.enum_member(base, name):
+                # a member of a plain enumeration is an object of its own,
+                # not equal to the value it wraps
+                return Sym('enummember', base.qualname, name, _as_term(v))
             return v
+        if isinstance(base, Sym) and base.op == 'enummember' and \
+                name in ('value', '_value_', 'name', '_name_'):
+            return base.args[1] if 'name' in name else base.args[2]
         if isinstance(base, Ref):
             o = self.obj(state, base)
             if isinstance(o, InstObj):
@@ -2901,6 +3017,19 @@ class Interp:
         if isinstance(callee, FuncV):
             return self.models.call_funcv(self, callee, args, kwargs, state,
                                           node)
+        if isinstance(callee, Ref):
+            ob = self.obj(state, callee)
+            if isinstance(ob, InstObj):
+                # an instance of a class of the package that defines
+                # __call__
+                m = self.prog.find_method(ob.cls, '__call__')
+                if m is not None:
+                    return self.call_function(m, [callee] + list(args),
+                                              kwargs, state, node)
+                self.raise_pending(state, Ext('builtins.TypeError'), node,
+                                   '%s object is not callable' %
+                                   ob.cls.short, cond=True)
+                raise _NoReturn()
         if isinstance(callee, Sym) and callee.op == 'cond':
             # call through a conditional callee: both, joined
             g = callee.args[0]
